@@ -12,3 +12,7 @@ pub fn zob(x: u64) -> Zobrist {
 pub fn raw(z: &Zobrist) -> u64 {
     z.hash
 }
+/// the real table lookup (private to zobrist.rs), for obligations in other modules
+pub fn pv(i: u8, p: Piece, gold: bool) -> u64 {
+    piece_value(Square::from_index(i), p, gold)
+}
